@@ -1044,6 +1044,10 @@ func (gqm *GroupQuotaManager) UnreservePod(quotaName string, p *v1.Pod) {
 	if quotaInfo == nil || !quotaInfo.IsPodExist(p) || !quotaInfo.CheckPodIsAssigned(p) {
 		return
 	}
+	if !quotaInfo.isCachedPodUID(p) {
+		// stale roll-back: the pod was deleted and re-created under the same name meanwhile
+		return
+	}
 
 	gqm.updatePodUsedNoLock(quotaName, p, nil)
 	gqm.updatePodIsAssignedNoLock(quotaName, p, false)
